@@ -7,7 +7,7 @@ CONSTANTS
   MaxCode = 1
   NFlagSets = 1
   SyncLit = TRUE
-  Kinds = {"STATUS", "APPEND", "NOOP", "SELECT"}
+  Kinds = {"STATUS", "APPEND", "NOOP"}
   Greetings = {"PREAUTH"}
   SimDepth = 0
   Count = FALSE
